@@ -39,12 +39,12 @@ for pid in all_ids:
 
 manifest = {
     'version': 1,
-    'setup_cmd': 'python3 -c "import sys; sys.exit(0)" && verus --version >/dev/null',
+    'setup_cmd': './setup.sh',
     'hooks': {
         'guard': 'thwbh_tauri_typegen_verif',
-        'enable': 'no hooks are needed: Verus units are assembled from text extracted from /repo on every run; Kani harnesses are appended to a scratch copy',
+        'enable': 'RUSTFLAGS="--cfg thwbh_tauri_typegen_verif" (set by ./check when it builds /verif/native against /repo); the Verus units need no hooks',
         'baseline_off_cmd': 'cd /repo && cargo test --workspace --no-fail-fast --offline',
-        'source_commits': [],
+        'source_commits': ['b7e8baf'],
         'add_only': True,
     },
     'engines': [
